@@ -94,6 +94,8 @@ theorem dims_covered :
   decide +kernel
 theorem measures_composite : Spec.deckSystems.all (fun s => Spec.measureSpec.all (Spec.measureOk s)) = true := by
   decide +kernel
+theorem measures_parse : Spec.deckSystems.all (fun s => Spec.measureSpec.all (Spec.measureParseOk s)) = true := by
+  decide +kernel
 theorem measures_covered : measureNames.all (fun n => Spec.measureSpec.any (·.measure == n)) = true := by
   decide +kernel
 theorem deckSystems_names : Spec.deckSystems.map (·.deckName) = [some "METRIC", some "FIELD", some "LAB", some "PVT-M"] := by
